@@ -22,9 +22,10 @@ Nest     == \E cmd \in NestCmds    : Apply(cmd)
 Advance  == \E cmd \in AdvanceCmds : Apply(cmd)
 HandleOp == \E cmd \in HandleCmds  : Apply(cmd)
 Erase    == \E cmd \in EraseCmds   : Apply(cmd)
+Bg       == \E cmd \in BgCmds      : Apply(cmd)
 Quiesce  == Apply(QuiesceCmd)
 
-Next == Spawn \/ Start \/ PollC \/ Burst \/ Nest \/ Advance \/ HandleOp \/ Erase \/ Quiesce
+Next == Spawn \/ Start \/ PollC \/ Burst \/ Nest \/ Advance \/ HandleOp \/ Erase \/ Bg \/ Quiesce
 Spec == Init /\ [][Next]_vars
 
 C01 == InvC01(mon)
